@@ -191,7 +191,7 @@ def failures (net : Net) (head : Option Head) (B : Bundle) : List Reject :=
   (if !(List.zip b.txs b.receipts).all (fun tr => tr.1.hash == some tr.2.txHash) then [.receiptTxHash] else []) ++
   (match (if skip then Except.ok () else verifyTransactionsE net.chainId b.txs b.header.version) with
    | .error e => [e] | .ok () => []) ++
-  (match tryFallbacks net b B.su.diff skip ((.felt 0) :: (match net.fallbackSeq with | some f => [f] | none => [])) with
+  (match tryFallbacks net b B.su.diff skip (fallbackAddrs net) with
    | .error e => [e] | .ok () => []) ++
   (if !versionSupported b.header.version then [.version] else []) ++
   (if expectedNumber head ≠ b.header.number then [.number] else []) ++
@@ -282,7 +282,7 @@ def step (s : Unit) (line : String) : Unit × String :=
     | none => (s, "bad-op")
   | "cc" :: rest =>
     match parseAll (do let a ← pU64; let b ← pU64; let c ← pU64; let d ← pNat; pure (a, b, c, d)) rest with
-    | some (a, b, c, d) => (s, natToHex (concatCounts a b c d))
+    | some (a, b, c, d) => (s, natToHex (concatCounts a b c d % starkPrime))
     | none => (s, "bad-op")
   | "da" :: rest =>
     match parseAll (do let a ← pU32; let b ← pU32; pure (a, b)) rest with
